@@ -18,7 +18,7 @@ FA = "x.fa"
 TIERS = {
     "quick": dict(
         export=[("seq", '{"p1"}', 4, 2, 0, "FALSE", "TRUE", 3), ("crash", '{"p1"}', 4, 2, 0, "TRUE", "TRUE", 3),
-                ("race", '{"p1", "p2"}', 2, 1, 2, "FALSE", "FALSE", 2)],
+                ("race", '{"p1", "p2"}', 2, 1, 2, "FALSE", "FALSE", 3)],
         mc=[("seq", '{"p1"}', 4, 2, 0, "FALSE", "TRUE", 3), ("crash", '{"p1"}', 3, 2, 0, "TRUE", "TRUE", 3),
             ("race", '{"p1", "p2"}', 2, 1, 2, "FALSE", "FALSE", 3)],
         cap=3000, ciw="ends"),
